@@ -156,7 +156,9 @@ func structure(r *gen.Rand, log [][4]string) xeng.Oracle {
 }
 
 func Run(c *gen.Ctx) error {
-	cfgs := xeng.QuickConfigs
+	// "identically for every code-style option": the quick tier takes one option that changes the Go shape of lists
+	// (elements held by value) next to the two layouts
+	cfgs := append(append([]xeng.Config{}, xeng.QuickConfigs...), xeng.ThoroughConfigs[4])
 	nops, perOp := 70, 3
 	if c.Thorough() {
 		cfgs = xeng.ThoroughConfigs
